@@ -535,7 +535,7 @@ fn main() {
     let thorough = run.thorough();
     let fams: Vec<usize> = (0..9).collect();
     // a panic of the code under test inside a family is a verdict on that family, not a crash of the check
-    let results = checks::par::par_map(&fams, checks::par::n_threads(), |&i| mccore::panics::catch(|| match i {
+    let results = checks::par::par_map(&fams, checks::par::n_threads(), |&i| mccore::panics::catch_long(|| match i {
         0 => fam_0(thorough),
         1 => fam_1(thorough),
         2 => fam_2(thorough),
